@@ -38,7 +38,8 @@ def jobs_for(prop, tier, seed):
         for n in ss_configs():
             cfg = SCfg(n)
             out.append((n, "random", setgen.random_script(cfg, seed, 2500 if th else 300, 60), None))
-            out.append((n, "exhaustive", setgen.smallset_exhaustive(cfg, None if not th else cfg.default_domain + 1, pairs=True), 400))
+            out.append((n, "exhaustive", setgen.smallset_exhaustive(cfg, None if not th else cfg.default_domain + 1, pairs=th), 400))
+            out.append((n, "merges", setgen.random_script(cfg, seed + 5, 400, 30, weights={"merge": 6, "merge_other": 3, "insert": 5, "erase_key": 3, "insert_range": 3, "ctor": 2, "cmp": 3, "swap": 1, "move_assign": 1, "clear": 1}) if not th else [], None))
     elif prop == "C11":
         for n in ss_configs():
             cfg = SCfg(n)
